@@ -77,7 +77,7 @@ def _in_range(x, lo, hi):
     return (not math.isnan(xf)) and lo <= xf <= hi
 
 
-def supported(pkg, name, sig):
+def supported(pkg, name, sig, zero=False):
     """dry run: does the abstraction cover every operation this variant uses?"""
     try:
         module = importlib.import_module(f"vector._compute.{pkg}.{name}")
@@ -87,11 +87,15 @@ def supported(pkg, name, sig):
         vi = 0
         k = 0
         guard.CTX[0] = guard.GCtx()
+        guard.CTX[0].zero_over_zero = zero
         for p in params:
             if p in VEC_PARAMS:
                 sysm = systems[vi]
                 n = len(sysm) + 1
-                args.append(lanes.build(GCLS, sysm, [guard.GV(z3.Real(f"dry{k + i}")) for i in range(n)], False))
+                if zero and vi == 0:
+                    args.append(lanes.build(GCLS, sysm, [guard.GV(z3.RealVal(0)) for i in range(n)], False))
+                else:
+                    args.append(lanes.build(GCLS, sysm, [guard.GV(z3.Real(f"dry{k + i}")) for i in range(n)], False))
                 k += n
                 vi += 1
             elif p == "obj":
@@ -113,8 +117,10 @@ def supported(pkg, name, sig):
         return False
 
 
-def f_guard(pkg, name, sig, want=None):
-    """want: None | 'angle' (result in [0, pi]) | 'nonneg' | 'nonneg-if-tau' | 'defined'"""
+def f_guard(pkg, name, sig, want=None, zero=False):
+    """want: None | 'angle' (result in [0, pi]) | 'nonneg' | 'nonneg-if-tau' | 'defined'
+    zero: the first vector operand is the zero vector as the library writes it (every stored coordinate 0); 0/0 is NaN in
+    the abstraction and the result must not contain a NaN"""
     module = importlib.import_module(f"vector._compute.{pkg}.{name}")
     systems, extras = common.split_signature(sig)
     params = common.dispatch_params(module)
@@ -128,6 +134,12 @@ def f_guard(pkg, name, sig, want=None):
         for p in params:
             if p in VEC_PARAMS:
                 sysm = systems[vi]
+                if zero and vi == 0:
+                    w = lanes.build(classes, sysm, [zero_value(R) for _ in range(len(sysm) + 1)], False)
+                    args.append(w)
+                    vecs.append((None, w))
+                    vi += 1
+                    continue
                 v = R.vec(sysm, str(vi + 1), tau_nonneg=False)
                 _, coords = lanes.stored(v)
                 w = lanes.build(classes, sysm, [conv(c) for c in coords], False)
@@ -145,15 +157,39 @@ def f_guard(pkg, name, sig, want=None):
                 args.append(conv(R.real(p, SCALAR_KIND[p])))
         return args, vecs
 
+    def zero_value(R):
+        return guard.GV(z3.RealVal(0)) if R.mode == "sym" else 0.0
+
+    def nan_free(val):
+        """concrete result (scalar, vector, tuple): no NaN anywhere"""
+        if common.is_vector(val):
+            return all(not math.isnan(float(c)) for c in lanes.stored(val)[1])
+        if isinstance(val, tuple):
+            return all(nan_free(x) for x in val)
+        try:
+            return not math.isnan(float(val))
+        except Exception:
+            return True
+
     def fn(R):
         if R.mode == "sym":
             g = guard.GCtx()
+            g.zero_over_zero = zero
             guard.CTX[0] = g
             args, vecs = build_args(R, lambda c: guard.GV(c.n), GCLS)
-            inputs = [c for _, w in vecs for c in lanes.stored(w)[1]]
-            res = module.dispatch(*args)
+            inputs = [c for v_, w in vecs if v_ is not None for c in lanes.stored(w)[1]]
+            try:
+                res = module.dispatch(*args)
+            except (NotImplementedError, AttributeError, TypeError) as e:
+                # the variant uses an operation the abstraction does not model (arithmetic on infinities, isclose, ...): not claimed
+                return [(f"outside the abstraction ({type(e).__name__}: {str(e)[:60]})", G.true(True))]
             hyp = z3.And(*(g.facts + g.assumptions)) if (g.facts or g.assumptions) else z3.BoolVal(True)
             goals = [(lab, G.Goal(z3.Implies(hyp, ob))) for lab, ob in g.obligations]
+            # vacuity twin: the facts and assumptions of the abstraction must be satisfiable
+            sv = z3.Solver()
+            sv.set("timeout", 20000)
+            sv.add(hyp)
+            goals.append(("vacuity: facts and assumptions of the abstraction are satisfiable", G.true(str(sv.check()) == "sat")))
             if want_here and not isinstance(res, tuple) and not common.is_vector(res):
                 res = guard.lift(res)
                 PI = guard.lift(math.pi).v
@@ -165,6 +201,10 @@ def f_guard(pkg, name, sig, want=None):
                     goals.append(("result >= 0, not NaN", G.Goal(z3.Implies(hyp, z3.And(z3.Not(res.nan), res.v >= 0)))))
                 else:
                     goals.append(("result not NaN", G.Goal(z3.Implies(hyp, z3.Not(res.nan)))))
+            if zero:
+                outs = [guard.lift(c) for c in lanes.stored(res)[1]] if common.is_vector(res) else ([] if isinstance(res, tuple) or isinstance(res, guard.GB) or isinstance(res, bool) else [guard.lift(res)])
+                if outs:
+                    goals.append(("zero operand: no NaN in the result", G.Goal(z3.Implies(hyp, z3.Not(z3.Or(*[o.nan for o in outs]))))))
             if not goals:
                 goals.append(("no sqrt / arccos / arcsin reached", G.true(True)))
             return goals
@@ -181,11 +221,13 @@ def f_guard(pkg, name, sig, want=None):
             with numpy.errstate(all="ignore"):
                 val = module.dispatch(*a)
             goals.append((f"{label}: arguments of sqrt/arccos/arcsin in domain (float64)", G.CGoal(not ILIB.bad, "; ".join(ILIB.bad[:4]))))
+            if zero:
+                goals.append((f"{label}: zero operand: no NaN in the result (float64)", G.CGoal(nan_free(val), f"{val!r}"[:120])))
             if want_here and not isinstance(val, tuple) and not common.is_vector(val):
                 goals.append((f"{label}: result in range, not NaN", G.CGoal(_in_range(val, lo, hi), f"{val!r}")))
 
         one(name, args)
-        if len(vecs) == 2:
+        if len(vecs) == 2 and not zero:
             (a_real, a_i), (b_real, b_i) = vecs
             pos = [i for i, x in enumerate(args) if x is b_i][0]
             for lab, w in (("-a", -a_real), ("a", a_real), ("3a", a_real * 3), ("-a/7", a_real * (-1.0 / 7))):
@@ -207,18 +249,15 @@ def f_guard(pkg, name, sig, want=None):
 NOTE = "IEEE order abstraction: every rounding of every arithmetic operation; outside: overflow, underflow of squares, zero denominators, operations on infinities"
 
 
-def families(pid, modules, tier="quick"):
+def families(pid, modules, tier="quick", zero=False):
     """modules: dict name -> (pkg, want)"""
     fams, skipped = [], []
     for name, (pkg, want) in modules.items():
         module = importlib.import_module(f"vector._compute.{pkg}.{name}")
         for sig in module.dispatch_map:
-            key = f"{pid}/ieee-guards/{pkg}.{name}/{common.sig_name(sig)}"
-            if not supported(pkg, name, sig):
-                skipped.append(key)
-                continue
+            key = f"{pid}/ieee-guards{'-zero' if zero else ''}/{pkg}.{name}/{common.sig_name(sig)}"
             impl = module.dispatch_map[sig][0]
-            f = Family(key, f_guard(pkg, name, sig, want), defd=False, functions=[f"vector._compute.{pkg}.{name}", f"{impl.__module__}.{impl.__qualname__}", "symx.guard (IEEE order abstraction)"], frame=False, note=NOTE)
+            f = Family(key, f_guard(pkg, name, sig, None if zero else want, zero), defd=False, functions=[f"vector._compute.{pkg}.{name}", f"{impl.__module__}.{impl.__qualname__}", "symx.guard (IEEE order abstraction)"], frame=False, note=NOTE)
             f.replay_mode = "f64"
             fams.append(f)
     return fams, skipped
